@@ -1152,3 +1152,170 @@ def is_power_of_two(ex, st, info, args):
         return a.v > 0 and (a.v & (a.v - 1)) == 0
     x = a.v
     return mk_bool(z3.And(x != 0, (x & (x - 1)) == 0))
+
+
+# ------------------------------------------------------------------------------------------ more Vec / slice methods
+@B.path('Vec::resize')
+def vec_resize(ex, st, info, args):
+    r, n, x = args
+    n = concrete_usize(n, 'Vec::resize length')
+    v = ex.read_ref(st, r)
+    if n > len(v.e):
+        ex.builtins_alloc(st, n - len(v.e))
+        ex.write_ref(st, r, Vec(v.e + (x,) * (n - len(v.e))))
+    else:
+        ex.write_ref(st, r, Vec(v.e[:n]))
+    return UNIT
+
+
+@B.path('Vec::truncate')
+def vec_truncate(ex, st, info, args):
+    r, n = args
+    n = concrete_usize(n)
+    v = ex.read_ref(st, r)
+    ex.write_ref(st, r, Vec(v.e[:n]))
+    return UNIT
+
+
+@B.path('Vec::reserve', 'Vec::reserve_exact', 'Vec::shrink_to_fit')
+def vec_reserve(ex, st, info, args):
+    return UNIT
+
+
+@B.path('Vec::capacity')
+def vec_capacity(ex, st, info, args):
+    return Int('usize', len(deref_all(ex, st, args[0]).e))
+
+
+@B.path('Vec::pop')
+def vec_pop(ex, st, info, args):
+    r = args[0]
+    v = ex.read_ref(st, r)
+    if not v.e:
+        return NONE
+    ex.write_ref(st, r, Vec(v.e[:-1]))
+    return mk_some(v.e[-1])
+
+
+@B.path('Vec::insert')
+def vec_insert(ex, st, info, args):
+    r, i, x = args
+    i = concrete_usize(i)
+    v = ex.read_ref(st, r)
+    if i > len(v.e):
+        return Panic('insertion index (is %d) should be <= len (is %d)' % (i, len(v.e)))
+    ex.builtins_alloc(st, 1)
+    ex.write_ref(st, r, Vec(v.e[:i] + (x,) + v.e[i:]))
+    return UNIT
+
+
+@B.path('Vec::remove')
+def vec_remove(ex, st, info, args):
+    r, i = args
+    i = concrete_usize(i)
+    v = ex.read_ref(st, r)
+    if i >= len(v.e):
+        return Panic('removal index (is %d) should be < len (is %d)' % (i, len(v.e)))
+    ex.write_ref(st, r, Vec(v.e[:i] + v.e[i + 1:]))
+    return v.e[i]
+
+
+@B.path('Vec::extend', 'Vec::extend_from_within')
+def vec_extend(ex, st, info, args):
+    raise ExecError('Vec::extend over a generic iterator is not modelled')
+
+
+@B.path('Vec::as_slice', 'Vec::as_mut_slice', 'Vec::as_ref', 'Vec::as_mut')
+def vec_as_slice(ex, st, info, args):
+    return args[0]
+
+
+@B.path('Vec::split_off')
+def vec_split_off(ex, st, info, args):
+    r, i = args
+    i = concrete_usize(i)
+    v = ex.read_ref(st, r)
+    if i > len(v.e):
+        return Panic('`at` split index (is %d) should be <= len (is %d)' % (i, len(v.e)))
+    ex.write_ref(st, r, Vec(v.e[:i]))
+    return Vec(v.e[i:])
+
+
+def _slice_elem_ref(r, i):
+    return Ref(r.base, r.projs + (('idx', Int('usize', i)),), r.mut)
+
+
+@B.path('slice::first', 'slice::first_mut', 'Vec::first')
+def slice_first(ex, st, info, args):
+    r = args[0]
+    v = ex.read_ref(st, r)
+    return mk_some(_slice_elem_ref(r, 0)) if ex.elems_of(v) else NONE
+
+
+@B.path('slice::last', 'slice::last_mut', 'Vec::last')
+def slice_last(ex, st, info, args):
+    r = args[0]
+    v = ex.read_ref(st, r)
+    n = len(ex.elems_of(v))
+    return mk_some(_slice_elem_ref(r, n - 1)) if n else NONE
+
+
+@B.path('slice::get', 'slice::get_mut', 'Vec::get')
+def slice_get(ex, st, info, args):
+    r, i = args
+    v = ex.read_ref(st, r)
+    n = len(ex.elems_of(v))
+    if isinstance(i, Int) and i.concrete:
+        return mk_some(_slice_elem_ref(r, i.v)) if 0 <= i.v < n else NONE
+    if isinstance(i, Int):
+        inb = z3.ULT(to_bv(i), z3.BitVecVal(n, to_bv(i).size()))
+        sel = ex.select_symbolic
+        return Choices([(inb, lambda s2: mk_some(Ref(('V', sel(s2, ex.elems_of(v), i))))), (z3.Not(inb), lambda s2: NONE)])
+    raise ExecError('slice::get with %r' % (i,))
+
+
+@B.path('slice::is_empty')
+def slice_is_empty(ex, st, info, args):
+    return len(ex.elems_of(deref_all(ex, st, args[0]))) == 0
+
+
+@B.path('slice::to_vec', 'slice::to_owned')
+def slice_to_vec(ex, st, info, args):
+    v = deref_all(ex, st, args[0])
+    ex.builtins_alloc(st, len(ex.elems_of(v)))
+    return Vec(ex.elems_of(v))
+
+
+@B.path('slice::split_at', 'slice::split_at_mut')
+def slice_split_at(ex, st, info, args):
+    r, i = args
+    i = concrete_usize(i)
+    v = ex.read_ref(st, r)
+    n = len(ex.elems_of(v))
+    if i > n:
+        return Panic('mid > len')
+    return Tup((Ref(r.base, r.projs + (('range', 0, i),), r.mut), Ref(r.base, r.projs + (('range', i, n),), r.mut)))
+
+
+@B.path('slice::copy_within')
+def slice_copy_within(ex, st, info, args):
+    r, rng, dest = args
+    v = ex.read_ref(st, r)
+    el = list(ex.elems_of(v))
+    a, b = concrete_usize(rng.f[0]), concrete_usize(rng.f[1])
+    d = concrete_usize(dest)
+    if b > len(el) or a > b or d + (b - a) > len(el):
+        return Panic('copy_within out of range')
+    el[d:d + (b - a)] = el[a:b]
+    ex.write_ref(st, r, type(v)(el))
+    return UNIT
+
+
+@B.trait('ToOwned', 'to_owned')
+def to_owned_any(ex, st, info, args):
+    v = deref_all(ex, st, args[0])
+    if isinstance(v, StrLit):
+        return RString((v.s,)) if v.s else RString(())
+    if isinstance(v, Arr):
+        return Vec(v.e)
+    return v
